@@ -1,6 +1,7 @@
 package rules
 
 import (
+	"encoding/json"
 	"fmt"
 	"go/ast"
 	"go/token"
@@ -92,7 +93,12 @@ func runC09on(c *Ctx, linux bool) {
 	roots, _ := inboundRoots(c)
 	R.Floor("R09.1:inbound-roots", len(roots), 5)
 	impls := sourceImpls(c)
-	R.Floor("R09.1:source-implementations", len(impls), 1)
+	if !linux {
+		impls = nil // the secondary build's capture layer is outside the claim
+	}
+	if linux {
+		R.Floor("R09.1:source-implementations", len(impls), 1)
+	}
 	checkErrClasses(c, ea, append(append([]*ssa.Function{}, roots...), impls...), "R09.1")
 	for _, rf := range impls {
 		checkReadCount(c, rf)
@@ -102,8 +108,8 @@ func runC09on(c *Ctx, linux bool) {
 	checkRetryablePredicate(c)
 	checkNoPanic(c, roots)
 	checkStateDeref(c)
-	if linux && os.Getenv("TRCHECK_OVERLAY") == "" {
-		checkBCE(c, roots) // compiles the working tree: not available for overlay variants of the self-test
+	if linux {
+		checkBCE(c, roots)
 	}
 }
 
@@ -658,7 +664,28 @@ var bceLine = regexp.MustCompile(`^(.+\.go):(\d+):(\d+): Found (IsInBounds|IsSli
 
 func checkBCE(c *Ctx, roots []*ssa.Function) {
 	R := c.R
-	cmd := exec.Command(core.GoBin+"/go", "build", "-gcflags="+core.ModulePath+"/...=-d=ssa/check_bce/debug=1", "./...")
+	args := []string{"build", "-gcflags=" + core.ModulePath + "/...=-d=ssa/check_bce/debug=1"}
+	// self-test variants are source overlays: hand the same overlay to the compiler
+	if ov := overlayFromEnv(); ov != nil {
+		tmp, err := os.MkdirTemp("", "trcheck-bce-")
+		if err == nil {
+			defer os.RemoveAll(tmp)
+			repl := map[string]string{}
+			i := 0
+			for path, content := range ov {
+				i++
+				f := fmt.Sprintf("%s/f%d.go", tmp, i)
+				os.WriteFile(f, content, 0o644)
+				repl[path] = f
+			}
+			ob, _ := json.Marshal(map[string]any{"Replace": repl})
+			of := tmp + "/overlay.json"
+			os.WriteFile(of, ob, 0o644)
+			args = append(args, "-overlay="+of)
+		}
+	}
+	args = append(args, "./...")
+	cmd := exec.Command(core.GoBin+"/go", args...)
 	cmd.Dir = c.P.Dir
 	cmd.Env = append(os.Environ(), "PATH="+core.GoBin+":"+os.Getenv("PATH"), "GOFLAGS=-mod=readonly", "GOWORK=off", "CGO_ENABLED=0", "GOOS=linux", "GOARCH=amd64", "GOPROXY=off", "GOSUMDB=off", "GOTOOLCHAIN=local")
 	outb, err := cmd.CombinedOutput()
